@@ -258,6 +258,26 @@ def edits(p):
                 q["stages"][k]["outs"][oi]["t"] = mro.T("float")
                 yield "change_output_type:%s.%s" % (st["name"], o["n"]), "semantic", q
                 break
+    # the definition of a struct type that a parameter of the invocation's callables has:
+    # a member is added, removed, or changes its type
+    used = json.dumps([st["ins"] + st["outs"] for st in p["stages"]] + [pl["ins"] + pl["outs"] for pl in p["pipelines"]] +
+                      [sd["fields"] for sd in p.get("structs", [])])
+    for k, sd in enumerate(p.get("structs", [])):
+        if '"b": "%s"' % sd["name"] not in used:
+            continue
+        q = copy.deepcopy(p)
+        q["structs"][k]["fields"].append({"n": "extra_member", "t": mro.T("int")})
+        yield "struct_add_member:" + sd["name"], "semantic", q
+        if len(sd["fields"]) > 1:
+            q = copy.deepcopy(p)
+            del q["structs"][k]["fields"][-1]
+            yield "struct_remove_member:" + sd["name"], "semantic", q
+        for fi, f in enumerate(sd["fields"]):
+            if f["t"] == mro.T("int"):
+                q = copy.deepcopy(p)
+                q["structs"][k]["fields"][fi]["t"] = mro.T("float")
+                yield "struct_retype_member:%s.%s" % (sd["name"], f["n"]), "semantic", q
+                break
     # the shape of a collection of files changes (typed map of files <-> of arrays of files,
     # array of files <-> array of typed maps of files)
     for k, st in enumerate(p["stages"]):
